@@ -1727,13 +1727,19 @@ pub fn gen_project_sized(d: &mut Dec, ctx: &mut Ctx, min_libs: usize, max_libs: 
             pkgs[0].imports.push(j);
         }
     }
-    for pk in pkgs.iter_mut() {
+    for (pi, pk) in pkgs.iter_mut().enumerate() {
         if d.chance(70) {
             pk.nfiles = 2 + d.below(2);
             for f in 1..pk.nfiles {
                 // some files sort before lib.gom / main.gom
                 let early = d.chance(90) && !ctx.gated("pkg:file-before-entry");
                 pk.file_names.push(if early { format!("aux{f}.gom") } else { format!("part{f}.gom") });
+            }
+            // two file names that differ only in case (their order must not be left to the
+            // directory enumeration); the upper-case one sorts before the entry file
+            if pk.nfiles == 3 && d.chance(80) && (pi > 0 || !ctx.gated("pkg:file-before-entry")) {
+                pk.file_names[0] = "part.gom".into();
+                pk.file_names[1] = "Part.gom".into();
             }
         }
     }
